@@ -6,6 +6,10 @@ NUM = dict(repo_srcs=['src/clstepcore/read_func.cc', 'src/clutils/Str.cc', 'src/
            native_srcs=['src/clstepcore/read_func.cc', 'src/clutils/Str.cc', 'src/clutils/errordesc.cc', 'src/clstepcore/sdai.cc', 'src/cldai/sdaiString.cc', 'src/cldai/sdaiEnum.cc'],
            wrapper='harness/C09/wrap_num.cc', models=RT,
            stubs=['vstd istream/string model', 'ErrorDescriptor message mutators: empty bodies (severity logic real)', 'operator new = calloc, never fails'])
+ENUMK = dict(wrapper='harness/C09/wrap_enum.cc', repo_srcs=['src/clutils/Str.cc', 'src/cldai/sdaiString.cc', 'src/clstepcore/sdai.cc', 'src/cldai/sdaiEnum.cc'],
+    irc_extra_cc=['harness/common/errordesc_stub.cc'], models=RT + ['lib/cmodels/printf_null.c', 'lib/cmodels/sprintf_null.c'],
+    native_srcs=['src/clutils/Str.cc', 'src/cldai/sdaiString.cc', 'src/clutils/errordesc.cc', 'src/clstepcore/sdai.cc', 'src/cldai/sdaiEnum.cc', 'src/clstepcore/read_func.cc'],
+    stubs=['vstd istream/ostream/string model', 'ErrorDescriptor message mutators: empty bodies', 'sprintf into messageBuf (diagnostic text only): writes an empty string'])
 HARNESSES = [
   H('int_tokens', 'irc', 'harness/C09/h_int.c', defs={'quick': {'NB': 5, 'VSTR_CAP': 10, 'VSTREAM_CAP': 8, 'VOSTREAM_CAP': 8}, 'thorough': {'NB': 7, 'VSTR_CAP': 12, 'VSTREAM_CAP': 10, 'VOSTREAM_CAP': 8}},
     unwind={'quick': 12, 'thorough': 14},
@@ -20,6 +24,26 @@ HARNESSES = [
     bounds='every token of <= 21 bytes over {0-9 - ,}: covers all integers around +-2^63 and beyond 64 bits',
     samples=[{'tok': '9223372036854775807,', 'usedelims': 1}, {'tok': '9223372036854775808,', 'usedelims': 1}, {'tok': '-9223372036854775808', 'usedelims': 0}, {'tok': '99999999999999999999,', 'usedelims': 1}],
     timeout={'thorough': 1800}, out_of_claim='longer digit strings', **NUM),
+  H('real_tokens', 'irc', 'harness/C09/h_real.c', defs={'quick': {'NB': 6, 'VSTR_CAP': 10, 'VSTREAM_CAP': 9, 'VOSTREAM_CAP': 8, 'HARNESS_STRTOD': 1}, 'thorough': {'NB': 8, 'VSTR_CAP': 12, 'VSTREAM_CAP': 11, 'VOSTREAM_CAP': 8, 'HARNESS_STRTOD': 1}},
+    unwind={'quick': 13, 'thorough': 15},
+    bounds='every NUL-terminated token of <= 6 (8) bytes over {0-9 + - . E e x blank , )}; delimiter list symbolic; strtod uninterpreted (arbitrary value, arbitrary success flag)',
+    samples=[{'tok': '1.5,', 'usedelims': 1}, {'tok': '-2.E3)', 'usedelims': 1}, {'tok': '1,', 'usedelims': 1}, {'tok': '.5', 'usedelims': 0}, {'tok': '1.e5', 'usedelims': 0}, {'tok': '+', 'usedelims': 0}, {'tok': '1.0E', 'usedelims': 0}, {'tok': ' 3. ,', 'usedelims': 1}],
+    out_of_claim='numeric value of the conversion (IEEE), tokens longer than the bound', **NUM),
+  H('string_tokens', 'irc', 'harness/C09/h_str.c', wrapper='harness/C09/wrap_str.cc',
+    repo_srcs=['src/clutils/Str.cc', 'src/cldai/sdaiString.cc', 'src/clstepcore/sdai.cc', 'src/cldai/sdaiEnum.cc'], irc_extra_cc=['harness/common/errordesc_stub.cc'],
+    native_srcs=['src/clutils/Str.cc', 'src/cldai/sdaiString.cc', 'src/clutils/errordesc.cc', 'src/clstepcore/sdai.cc', 'src/cldai/sdaiEnum.cc', 'src/clstepcore/read_func.cc'], models=RT,
+    defs={'quick': {'NB': 7, 'VSTR_CAP': 12, 'VSTREAM_CAP': 10, 'VOSTREAM_CAP': 12}, 'thorough': {'NB': 9, 'VSTR_CAP': 14, 'VSTREAM_CAP': 12, 'VOSTREAM_CAP': 14}},
+    unwind={'quick': 16, 'thorough': 18},
+    bounds="every byte string of <= 7 (9) bytes over {' \\ S a , ) blank} then EOF",
+    samples=[{'tok': "'a'"}, {'tok': "'a''a',"}, {'tok': "'\\S\\''"}, {'tok': "'a"}, {'tok': " ''"}, {'tok': "a'"}, {'tok': "''''"}, {'tok': "'a'a"}],
+    stubs=['vstd istream/ostream/string model', 'ErrorDescriptor message mutators: empty bodies'],
+    out_of_claim='strings longer than the bound; \\X\\ \\X2\\ \\X4\\ hex escapes (treated as ordinary bytes by the reader)'),
+] + [
+  H('enum_%s' % nm, 'irc', 'harness/C09/h_enum.c', defs={'quick': {'NB': 5, 'KIND': k, 'VSTR_CAP': 8, 'VSTREAM_CAP': 8, 'VOSTREAM_CAP': 8}, 'thorough': {'NB': 6, 'KIND': k, 'VSTR_CAP': 9, 'VSTREAM_CAP': 9, 'VOSTREAM_CAP': 9}},
+    unwind={'quick': 12, 'thorough': 13},
+    bounds='%s: every byte string of <= 5 (6) bytes over the kind alphabet (period, item letters in both cases, digit, x, blank, comma, parenthesis) then EOF; optional flag symbolic' % nm,
+    samples=[{'tok': '.T.,', 'optional': 0}, {'tok': '.t.', 'optional': 0}, {'tok': 'T,', 'optional': 0}, {'tok': ',', 'optional': 1}, {'tok': '.x.', 'optional': 0}, {'tok': '.A.', 'optional': 0}, {'tok': '.BB.', 'optional': 0}, {'tok': '..', 'optional': 0}, {'tok': '.U.)', 'optional': 0}, {'tok': ' .F', 'optional': 0}],
+    out_of_claim='item names longer than the bound', **ENUMK) for k, nm in ((0, 'logical'), (1, 'boolean'), (2, 'generic3'))
 ]
 JOBS = 8
 MANIFEST = {
